@@ -111,6 +111,7 @@ func (dgs *DAGService) Finalize(ctx context.Context, dataRoot cid.Cid) (cid.Cid,
 	clusterDAGPin.ReplicationFactorMin = -1
 	clusterDAGPin.ReplicationFactorMax = -1
 	clusterDAGPin.MaxDepth = 0 // pin direct
+	clusterDAGPin.Mode = api.PinModeDirect
 	clusterDAGPin.Name = fmt.Sprintf("%s-clusterDAG", dgs.pinOpts.Name)
 	clusterDAGPin.Type = api.ClusterDAGType
 	clusterDAGPin.Reference = &dataRoot
@@ -123,7 +124,9 @@ func (dgs *DAGService) Finalize(ctx context.Context, dataRoot cid.Cid) (cid.Cid,
 	metaPin := api.PinWithOpts(dataRoot, dgs.pinOpts)
 	metaPin.Type = api.MetaType
 	metaPin.Reference = &clusterDAG
-	metaPin.MaxDepth = 0 // irrelevant. Meta-pins are not pinned
+	// The depth is irrelevant: meta pins are not pinned. It stays the one
+	// that matches the requested mode so that the pin reads back from
+	// the state as it was written.
 	err = adder.Pin(ctx, dgs.rpcClient, metaPin)
 	if err != nil {
 		return dataRoot, err
